@@ -46,6 +46,15 @@ def judgeSilent (id : Nat) : Bool → List Obs → Bool
   | gone, .cancelled i :: r => judgeSilent id (gone || i == id) r
   | gone, _ :: r => judgeSilent id gone r
 
+/-- The same with failed registrations: once the registration call of `id` reported an error (`regErr`) or its clean-up
+    took effect (`cancelled`), its callback is never invoked again. -/
+def judgeSilentF (id : Nat) : Bool → List Obs → Bool
+  | _, [] => true
+  | gone, .cb i _ _ _ _ :: r => (!(gone && i == id)) && judgeSilentF id gone r
+  | gone, .cancelled i :: r => judgeSilentF id (gone || i == id) r
+  | gone, .regErr i :: r => judgeSilentF id (gone || i == id) r
+  | gone, _ :: r => judgeSilentF id gone r
+
 /-- A callback only ever sees messages carrying the token its registration was entered with. -/
 def judgeOwnToken : List (Nat × Nat) → List Obs → Bool
   | _, [] => true
